@@ -1,0 +1,15 @@
+//go:build verif
+
+// Contracts for govc (see /verif/DESIGN.md). Comment-only; compiled only with -tags verif.
+
+package rcopy
+
+//@ property C10 C07
+
+// refinement of the base.LogRewriter contract with rwmax = len(value)
+//@ func (rw *copyRewriter) MaxFieldLength(value string, record *base.LogRecord) int
+//@   ensures result == len(value)
+//@ func (rw *copyRewriter) WriteFieldBody(value string, record *base.LogRecord, buffer []byte) int
+//@   requires len(buffer) >= len(value)
+//@   modifies buffer[: len(value)]
+//@   ensures  result == len(value) && forall i int :: 0 <= i && i < len(value) ==> buffer[i] == value[i]
